@@ -10,6 +10,21 @@ use crate::security::*;
 //use crate::consensus_ops::*;
 use log;
 
+/// A session counts once in $connections: when it selects a database again (the same or another
+/// one) the connection it held on the previously selected database is released first.
+fn release_previous_connection(
+    previous_db: Option<String>,
+    dbs_map: &std::collections::HashMap<String, Database>,
+    dbs: &Arc<Databases>,
+) {
+    if let Some(previous_db) = previous_db {
+        if let Some(db) = dbs_map.get(&previous_db) {
+            db.dec_connections();
+            set_connection_counter(db, dbs);
+        }
+    }
+}
+
 fn process_request_obj(request: &Request, dbs: &Arc<Databases>, client: &mut Client) -> Response {
     match request.clone() {
         Request::ReplicateIncrement { db: name, key, inc } => apply_if_auth(&client.auth, &|| {
@@ -255,7 +270,9 @@ fn process_request_obj(request: &Request, dbs: &Arc<Databases>, client: &mut Cli
                             let mut user_name_state = client.selected_db.user_name.write().unwrap();
 
                             if is_valid_user_token(&token, &user_name, db) {
-                                let _ = std::mem::replace(&mut *db_name_state, Some(name.clone()));
+                                let previous_db =
+                                    std::mem::replace(&mut *db_name_state, Some(name.clone()));
+                                release_previous_connection(previous_db, &dbs_map, &dbs);
                                 let _ = std::mem::replace(
                                     &mut *user_name_state,
                                     Some(user_name.clone()),
@@ -272,7 +289,9 @@ fn process_request_obj(request: &Request, dbs: &Arc<Databases>, client: &mut Cli
                         None => {
                             if is_valid_token(&token, db) {
                                 let mut db_name_state = client.selected_db.name.write().unwrap();
-                                let _ = std::mem::replace(&mut *db_name_state, Some(name.clone()));
+                                let previous_db =
+                                    std::mem::replace(&mut *db_name_state, Some(name.clone()));
+                                release_previous_connection(previous_db, &dbs_map, &dbs);
                                 db.inc_connections(); //Increment the number of connections
                                 set_connection_counter(db, &dbs);
                                 Response::Ok {}
